@@ -50,7 +50,7 @@ struct Entropy {
     bool exhausted() const { return pos >= d.size(); }
 };
 
-enum class K { Null, True, False, UInt, Int, Real, Str, Arr, Obj };
+enum class K { Null, True, False, UInt, Int, Real, Str, Arr, Obj, Undef };
 
 struct Node {
     K                                   k{K::Null};
@@ -337,6 +337,7 @@ inline void spell(const Node &n, Entropy &e, Units &o, const SpellOpts &op, Spel
         st.depth = depth;
     }
     switch (n.k) {
+        case K::Undef: break;
         case K::Null: put_ascii(o, "null"); break;
         case K::True: put_ascii(o, "true"); break;
         case K::False: put_ascii(o, "false"); break;
@@ -430,6 +431,7 @@ struct Buf {
         }
     }
     ~Buf() { free(p); }
+    const Char_T *cp() const { return p; } // String(Char_T*, len) ADOPTS the buffer; always hand out const pointers
     Buf(const Buf &)            = delete;
     Buf &operator=(const Buf &) = delete;
 };
@@ -464,12 +466,15 @@ inline std::string show(const Units &u) { // for messages
 struct CmpOpts {
     bool exact_number_kind{true}; // C06: integer numerals must come back in the exact integer kind
     int  ulp{1};
+    bool strings_are_units{false}; // model strings/keys already hold code units of the value's width (C08, C12)
 };
 template <typename Char_T>
 std::string compare(const Qentem::Value<Char_T> &v, const Node &n, const CmpOpts &op, const std::string &path = "$") {
     using namespace Qentem;
-    auto str_eq = [&](const Char_T *p, size_t len, const Units &cps) { return units_of(p, len) == encode(cps, int(sizeof(Char_T))); };
+    auto enc    = [&](const Units &cps) { return op.strings_are_units ? cps : encode(cps, int(sizeof(Char_T))); };
+    auto str_eq = [&](const Char_T *p, size_t len, const Units &cps) { return units_of(p, len) == enc(cps); };
     switch (n.k) {
+        case K::Undef: return v.IsUndefined() ? "" : path + ": expected Undefined";
         case K::Null: return v.IsNull() ? "" : path + ": expected null";
         case K::True: return v.IsTrue() ? "" : path + ": expected true";
         case K::False: return v.IsFalse() ? "" : path + ": expected false";
@@ -517,7 +522,7 @@ std::string compare(const Qentem::Value<Char_T> &v, const Node &n, const CmpOpts
             }
             if (!str_eq(v.StringStorage(), v.Length(), n.s)) {
                 return path + ": string differs: got " + show(units_of(v.StringStorage(), v.Length())) + " expected " +
-                       show(encode(n.s, int(sizeof(Char_T))));
+                       show(enc(n.s));
             }
             return "";
         }
@@ -558,7 +563,7 @@ std::string compare(const Qentem::Value<Char_T> &v, const Node &n, const CmpOpts
                     return p2 + ": key at position " + std::to_string(i) + " is " + show(units_of(key->First(), key->Length()));
                 }
                 // lookup by key must find the same member
-                Units                ek = encode(n.obj[i].first, int(sizeof(Char_T)));
+                Units                ek = enc(n.obj[i].first);
                 Buf<Char_T>          kb(ek);
                 const Value<Char_T> *byk = v.GetValue(kb.p, SizeT(kb.n));
                 if (byk != c) {
